@@ -4,7 +4,7 @@
      par (ser (jdoc_of t)) = Some (jdoc_of t)             for tables t with distinct keys, and
      par (firstn k (ser (jdoc_of t))) = None              for every k < length (every proper prefix),
    validated on CPython by the harness for every generated file at every byte offset. *)
-From CF Require Import Common.Bytes C03.Model C03.ExtModel C03.Fetch C03.Lookup C11.Model C11.Proofs C11.Conc C11.Observers C11.Empty.
+From CF Require Import Common.Bytes C03.Model C03.ExtModel C03.Fetch C03.Lookup C11.Model C11.Proofs C11.Conc C11.Observers C11.Empty C11.Decoder.
 Open Scope Z_scope.
 
 (* Crash safety, wrong-table safety and read-only directory, for ALL histories: starting from cache
@@ -228,3 +228,33 @@ Theorem C11_stat_outside_guard_refuted :
   cfetch_x false (fun _ => None) st fs 7 = FRaise /\ cfetch_x true (fun _ => None) st fs 7 = FOk Miss.
 Proof. exact stat_outside_guard_refuted. Qed.
 Print Assumptions C11_stat_outside_guard_refuted.
+
+(* The decoder as a partial function (model C11/Decoder.v, following HEAD: every field is read with obj[key]).
+   It succeeds only on objects carrying the class tag and EVERY required key of that class — ident, group, name,
+   ctype, pytype, access, and extended for parameters. *)
+Theorem C11_decoder_needs_all_keys : forall f r,
+  decode_elem f = Some r ->
+  exists c, class_of f = Some c /\ forall k, In k (required_keys c) -> dget k f <> None.
+Proof. exact decode_needs_all_keys. Qed.
+Print Assumptions C11_decoder_needs_all_keys.
+
+(* hence a cache file in which ANY element object lacks ANY required key (e.g. a parameter file of an older
+   version without 'extended') is a miss of fetch — whatever else the file holds, wherever the element sits —
+   and by C11_miss_falls_back_to_download the table is downloaded *)
+Theorem C11_missing_key_is_miss : forall (par : list Z -> option jdoc) st (fs : fsys (list Z)) crc dd nm ct d g grp n f c k,
+  last_match (cache_name crc) (c_files st) None = Some (dd, nm) -> dget nm (files dd fs) = Some ct -> par ct = Some d ->
+  In (g, grp) d -> In (n, f) grp -> has_class f = true ->
+  class_of f = Some c -> In k (required_keys c) -> dget k f = None ->
+  cfetch par st fs crc = Miss.
+Proof. exact (@fetch_missing_key_is_miss (list Z)). Qed.
+Print Assumptions C11_missing_key_is_miss.
+
+(* refutation of reading 'extended' with a default: the old file is then a hit whose element says extended = false
+   although the device's entry is extended *)
+Theorem C11_lenient_extended_refuted :
+  let dev_elem := mkElem ParamCls 0 [112] [97] "uint8_t" "<B" 0 true false in
+  decode_elem old_param_object = None /\
+  decode_elem_lenient old_param_object = Some (Some (mkElem ParamCls 0 [112] [97] "uint8_t" "<B" 0 false false)) /\
+  mkElem ParamCls 0 [112] [97] "uint8_t" "<B" 0 false false <> reload_elem dev_elem.
+Proof. exact lenient_extended_refuted. Qed.
+Print Assumptions C11_lenient_extended_refuted.
